@@ -27,7 +27,7 @@ def gen(rng, tier, i):
     p = Plan()
     # a master without error_handler() matters: the handler apply at full call depth would itself hit the limit and mark the error
     r0 = rng.random()
-    defs = {'NO_ERROR_HANDLER': 1} if r0 < 0.3 else ({'EH_CATCH': 1} if r0 < 0.55 else {})
+    defs = {'NO_ERROR_HANDLER': 1} if r0 < 0.3 else ({'EH_CATCH': 1} if r0 < 0.45 else ({'EH_CATCH1': 1} if r0 < 0.6 else {}))
     if rng.random() < 0.3: defs['OBJECT_NAME_SPIN'] = 1
     p.file('mcfg.h', mcfg(defs))
     p.cfg('Port', '4000:telnet')
